@@ -301,7 +301,7 @@ func runC16(c *Ctx) {
 	if c.Thorough() {
 		nodes, maxRules, maxDomLinks = 4, 2, 4
 	}
-	c.Rule = fmt.Sprintf("all role graphs over %d names incl. self-loops and cycles (plain model; every subset of the directed links) and all domain graphs of <= %d links over 3 names x 2 domains, x all policies of <= %d rules over subjects (names + a name outside the graph) x 2 permissions, plus chains of 9..13 names around the depth limit, complete trees and layered DAGs of fan-out 2..3 and depth 2..3, and seeded random graphs of 5..8 names: GetImplicitRolesForUser, GetImplicitUsersForRole, GetImplicitPermissionsForUser, GetImplicitUsersForPermission, GetImplicitUsersForResource for every name, domain, permission and resource are compared with the Lean model, the role listing with g() (spec) and the permission listing with enforce() (spec); on the implementation: listed roles = names with HasLink, Enforce = some listed permission grants, implicit users = non-role subjects that Enforce allows, resource rows = non-role names that Enforce allows; names whose concatenations coincide (numeric ids, with and without a domain); non-trivial = a case with listed implicit roles and rules; distinct = (graph, policy)", nodes, maxDomLinks, maxRules)
+	c.Rule = fmt.Sprintf("role graphs over %d names incl. self-loops and cycles (plain model; quick tier: every subset of the 9 directed links; thorough tier: every fifth of the 65 536 subsets of the 16 links, the residue chosen by the seed) and all domain graphs of <= %d links over 3 names x 2 domains; every eighth plain graph and every sixteenth domain graph with all policies of <= %d rules over subjects (names + a name outside the graph) x 2 permissions, the others with two or three of them; three set-up variants of the enforcer; direct getters (roles, users, permissions, domains) against a reference computed from the listed rules; queries must leave the state unchanged; plus chains of 9..13 names around the depth limit, complete trees and layered DAGs of fan-out 2..3 and depth 2..3, and seeded random graphs of 5..8 names: GetImplicitRolesForUser, GetImplicitUsersForRole, GetImplicitPermissionsForUser, GetImplicitUsersForPermission, GetImplicitUsersForResource for every name, domain, permission and resource are compared with the Lean model, the role listing with g() (spec) and the permission listing with enforce() (spec); on the implementation: listed roles = names with HasLink, Enforce = some listed permission grants, implicit users = non-role subjects that Enforce allows, resource rows = non-role names that Enforce allows; names whose concatenations coincide (numeric ids, with and without a domain); non-trivial = a case with listed implicit roles and rules; distinct = (graph, policy)", nodes, maxDomLinks, maxRules)
 	all := []string{"a", "b", "c", "d"}[:nodes]
 	// plain: every subset of the directed links (self-loops included)
 	var E [][]string
